@@ -736,41 +736,66 @@ Proof.
   destruct (Rle_dec 0 sg); [rewrite (Rabs_pos_eq sg) in * by lra | rewrite (Rabs_left1 sg) in * by lra]; nra.
 Qed.
 
-(* ---- a concrete failing input of the OLD branch in exact real arithmetic (both dtypes' eps):
-   phi = (eps, 0, 0), sigma = 2 eps, tau = (0, 1, 0): the y-component of the translation was off by more than 1/5
-   (true value ~1, old code ~3/4); with the repaired coefficient the same input is within 10^-25 *)
-From Interval Require Import Tactic.
+(* ---- a failing input of the OLD branch in exact real arithmetic, for every 0 < eps <= 1/16 (both dtypes' eps):
+   phi = (eps, 0, 0), sigma = 2 eps, tau = (0, 1, 0): the y-component of the old translation was off by more than 1/10
+   (true value ~1, old code ~3/4: (theta/sigma)^2 = 1/4); with the repaired coefficient the same input is within eps^3.
+   Derived from the two structural results above, no numerical evaluation *)
 Lemma vnorm_x_axis (a : R) : 0 <= a -> vnorm ((a, 0, 0) : vec3R) = a.
 Proof.
   intros H. unfold vnorm. cbn [tsqrt TransR].
   replace (vdot ((a, 0, 0) : vec3R) (a, 0, 0)) with (a * a) by (lie_unfold; ring). now apply sqrt_square.
 Qed.
-Lemma abc_axis_y (A B C a : R) : vc 1 (mvmul (abc A B C (a, 0, 0)) ((0, 1, 0) : vec3R)) = C - B * (a * a).
-Proof. unfold abc, vc. lie_unfold. ring. Qed.
-Lemma regime3_old_witness (eps : R) : eps = / 2^52 \/ eps = / 2^23 ->
+Lemma mvmul_e1_y (M : @mat3 R) : vc 1 (mvmul M ((0, 1, 0) : vec3R)) = m3get M 1 1.
+Proof. destruct M as [[[[p0 p1] p2] [[q0 q1] q2]] [[r0 r1] r2]]. unfold vc, m3get. lie_unfold. ring. Qed.
+Lemma skew2_x_axis_11 (a : R) : m3get (mmul3 (skew ((a, 0, 0) : vec3R)) (skew (a, 0, 0))) 1 1 = - (a * a).
+Proof. unfold m3get. lie_unfold. ring. Qed.
+Lemma exp_small_le_2 s : s <= 1/8 -> exp s <= 2.
+Proof.
+  intros H. eapply Rle_trans; [apply (exp_le' s (1/8) H)|].
+  eapply Rle_trans; [apply exp_upper; lra|]. apply Rle_div_l; lra.
+Qed.
+Lemma regime3_old_witness (eps : R) : 0 < eps <= 1/16 ->
   let tau : vec3R := (0, 1, 0) in let phi : vec3R := (eps, 0, 0) in let sg := 2 * eps in
   vnorm phi <= eps /\ eps < Rabs sg /\
   forall (E : @mat3 R) (p : vec3R), is_mexp_sim3 tau phi sg E p ->
-    Rabs (vc 1 (mvmul (Ws_old_regime3 phi sg) tau) - vc 1 p) > 1/5 /\
-    Rabs (vc 1 (fst (sim3_exp eps (tau, (phi, sg)))) - vc 1 p) < / 10^25.
+    Rabs (vc 1 (mvmul (Ws_old_regime3 phi sg) tau) - vc 1 p) > 1/10 /\
+    Rabs (vc 1 (fst (sim3_exp eps (tau, (phi, sg)))) - vc 1 p) <= eps ^ 3.
 Proof.
-  intros He tau phi sg.
-  assert (Hp : 0 < eps) by (destruct He as [-> | ->]; interval).
+  intros [Hp He] tau phi sg.
   assert (Hv : vnorm phi = eps) by (apply vnorm_x_axis; lra).
   assert (Hs : Rabs sg = 2 * eps) by (unfold sg; apply Rabs_pos_eq; lra).
+  assert (Hsg : sg <> 0) by (unfold sg; lra).
   rewrite Hv, Hs. split; [lra|]. split; [lra|].
-  intros E p H. apply sim3_exponential in H; [|rewrite Hv; lra | unfold sg; lra]. destruct H as [_ ->].
-  unfold sim3_exp. cbn [fst snd]. rewrite rxso3_Ws_regime3_abc by (rewrite ?Hv, ?Hs; lra).
-  unfold Ws_old_regime3, Ws1. rewrite B3_old_eq, Hv, Ws_th_abc. unfold tau, phi. rewrite !abc_axis_y.
-  unfold B3, B3c, Bt, Cs, sg. rewrite !Rmult_1_l.
-  split; destruct He as [-> | ->]; interval with (i_prec 400).
+  intros E p H. apply sim3_exponential_total in H. destruct H as [_ ->].
+  unfold sim3_exp. cbn [fst snd]. unfold tau. rewrite !mvmul_e1_y.
+  pose proof (exp_small_le_2 (Rabs sg) ltac:(rewrite Hs; lra)) as He2. pose proof (exp_pos (Rabs sg)) as Hep.
+  assert (H2 : 0 <= eps * eps <= /256) by nra.
+  assert (H3 : eps ^ 3 <= eps * eps / 16) by (replace (eps ^ 3) with (eps * eps * eps) by ring; nra).
+  assert (H3p : 0 <= eps ^ 3) by (apply pow_le; lra).
+  assert (H4 : eps ^ 4 <= eps ^ 3 / 16) by (replace (eps ^ 4) with (eps ^ 3 * eps) by ring; nra).
+  assert (H4p : 0 <= eps ^ 4) by (apply pow_le; lra).
+  split.
+  - pose proof (rxso3_Ws_old_regime3_error phi sg ltac:(rewrite Hv; lra) Hsg 1%nat 1%nat ltac:(lia) ltac:(lia)) as Herr.
+    unfold phi in Herr at 3 4. rewrite skew2_x_axis_11, Hv in Herr.
+    pose proof (B3_old_large sg Hsg ltac:(rewrite Hs; lra)) as HB. unfold sg in HB at 2 3.
+    set (b := rxso3_Ws_B3_old sg) in *. clearbody b.
+    set (d := m3get (Ws_old_regime3 phi sg) 1 1 - m3get (mexp_Vmat phi sg) 1 1) in *. clearbody d.
+    replace (eps ^ 2) with (eps * eps) in Herr by ring.
+    set (e := exp (Rabs sg)) in *. clearbody e.
+    assert (Hbnd : e * (eps ^ 3 / 6 + eps * eps / 2) <= 2 * (eps ^ 3 / 6 + eps * eps / 2)) by (apply Rmult_le_compat_r; lra).
+    apply Rabs_le_between in Herr. assert (Hd : d <= - (1/10)) by nra. rewrite Rabs_left1 by lra. lra.
+  - pose proof (rxso3_Ws_regime3_close eps phi sg ltac:(rewrite Hv; lra) ltac:(rewrite Hs; lra) ltac:(lra)
+                  1%nat 1%nat ltac:(lia) ltac:(lia)) as Hc. rewrite Hv in Hc.
+    eapply Rle_trans; [exact Hc|]. set (e := exp (Rabs sg)) in *. clearbody e.
+    assert (Hbnd : e * (eps ^ 3 / 6 + eps ^ 4 / 24) <= 2 * (eps ^ 3 / 6 + eps ^ 4 / 24)) by (apply Rmult_le_compat_r; lra).
+    lra.
 Qed.
 Theorem sim3_old_regime3_refuted :
-  forall eps : R, eps = / 2^52 \/ eps = / 2^23 ->
+  forall eps : R, 0 < eps <= 1/16 ->
   exists (tau phi : vec3R) (sg : R), vnorm phi <= eps /\ eps < Rabs sg /\
     forall (E : @mat3 R) (p : vec3R), is_mexp_sim3 tau phi sg E p ->
-      Rabs (vc 1 (mvmul (Ws_old_regime3 phi sg) tau) - vc 1 p) > 1/5 /\
-      Rabs (vc 1 (fst (sim3_exp eps (tau, (phi, sg)))) - vc 1 p) < / 10^25.
+      Rabs (vc 1 (mvmul (Ws_old_regime3 phi sg) tau) - vc 1 p) > 1/10 /\
+      Rabs (vc 1 (fst (sim3_exp eps (tau, (phi, sg)))) - vc 1 p) <= eps ^ 3.
 Proof. intros eps He. exists (0, 1, 0), (eps, 0, 0), (2 * eps). exact (regime3_old_witness eps He). Qed.
 
 (* ================= distance of the modelled Exp to THE exponential, for every generator ================= *)
